@@ -4,7 +4,7 @@
 // (first,last,step) triple, operator and right-hand-side kind chosen at run time.  After every write
 // the WHOLE parent tensor is digested, the bytes around it are compared with their initial contents
 // and the trace is reduced to the ordered sequence of written positions.
-#include <Fastor/Fastor.h>
+#include "view_write_common.h"
 #include "simd_sym.h"
 #include "hutil.h"
 #include "tensor_arena.h"
@@ -21,86 +21,16 @@ using namespace vf;
 #else
 #define VW_VEA 0
 #endif
+#if FASTOR_NO_ALIAS
+#define VW_NAL 1
+#else
+#define VW_NAL 0
+#endif
 static bool g_verbose = false;
 
 namespace vw {
-using Fastor::seq; using Fastor::Tensor;
-template<size_t... E> struct RDims {};
-typedef std::array<int,3> Tri;
-
-// ------------------------------------------------------------------------------------ script parsing
-struct WSpec { int op; char rk; int c; bool na, keep; std::vector<Tri> dst, src, src2; };
-static inline std::vector<std::string> split(const std::string& s, char d) {
-    std::vector<std::string> r; std::string cur;
-    for (char ch : s) { if (ch == d) { r.push_back(cur); cur.clear(); } else cur += ch; }
-    r.push_back(cur); return r;
-}
-static inline std::vector<Tri> parse_ranges(const std::string& s) {
-    std::vector<Tri> r;
-    if (s.empty()) return r;
-    for (auto& ax : split(s, ',')) { auto p = split(ax, '_'); r.push_back(Tri{std::atoi(p[0].c_str()), std::atoi(p[1].c_str()), std::atoi(p[2].c_str())}); }
-    return r;
-}
-static inline int opcode(const std::string& s) { return s == "set" ? 0 : s == "add" ? 1 : s == "sub" ? 2 : s == "mul" ? 3 : 4; }
-// write := op.rk.c.dst[.src[.src2]]   rk: s v e t x f m a b ; trailing letters on the op: `n` = noalias() is called on
-// the view first, `k` = the write is applied to the view OBJECT of the previous write (stored view, same ranges)
-static inline std::vector<WSpec> parse_script(const char* script) {
-    std::vector<WSpec> ws;
-    for (auto& w : split(script, '/')) {
-        auto f = split(w, '.');
-        WSpec s; std::string o = f[0];
-        s.na = s.keep = false;
-        while (!o.empty() && (o.back() == 'n' || o.back() == 'k')) { if (o.back() == 'n') s.na = true; else s.keep = true; o.pop_back(); }
-        s.op = opcode(o); s.rk = f[1][0]; s.c = std::atoi(f[2].c_str());
-        s.dst = parse_ranges(f[3]);
-        if (f.size() > 4) s.src = parse_ranges(f[4]);
-        if (f.size() > 5) s.src2 = parse_ranges(f[5]);
-        ws.push_back(s);
-    }
-    return ws;
-}
-
-// ------------------------------------------------------------------------------------ reference
-// documented meaning of a (first,last,step) triple on an axis of n elements (independent of the
-// library's normalisers): negative `last` counts from the end with -1 = n; the pair (-1,0) is the
-// single last element (integer index -1); both negative: both count from the end.
-static inline void ref_norm(Tri t, int n, int& f, int& cnt, int& s) {
-    int a = t[0], b = t[1]; s = t[2];
-    if (a == -1 && b == 0) { a = n - 1; b = n; }
-    else { if (b < 0) b += n + 1; if (a < 0) a += n + 1; }
-    f = a; cnt = 0; for (int x = a; x < b; x += s) ++cnt;
-}
-struct RefSel { std::vector<int> f, cnt, s; long total = 1;
-    RefSel(const std::vector<Tri>& r, const std::vector<int>& dims) {
-        f.resize(r.size()); cnt.resize(r.size()); s.resize(r.size());
-        for (size_t k = 0; k < r.size(); ++k) { ref_norm(r[k], dims[k], f[k], cnt[k], s[k]); total *= cnt[k]; }
-    }
-    // position in the parent of the logical flat (row-major) index jf
-    long pos(long jf, const std::vector<int>& dims) const {
-        long p = 0, rem = jf; std::vector<long> j(f.size());
-        for (int k = (int)f.size() - 1; k >= 0; --k) { j[k] = rem % cnt[k]; rem /= cnt[k]; }
-        for (size_t k = 0; k < f.size(); ++k) p = p * dims[k] + (f[k] + j[k] * s[k]);
-        return p;
-    }
-};
 static inline Poly papply(int op, const Poly& a, const Poly& b) {
     return op == 0 ? b : op == 1 ? padd(a, b) : op == 2 ? padd(a, b, -1) : pmul(a, b);
-}
-
-// ------------------------------------------------------------------------------------ view makers
-template<typename TT> inline auto mkview(TT& A, const std::vector<Tri>& r, std::integral_constant<size_t,1>)
-    -> decltype(A(seq(0,1,1))) { return A(seq(r[0][0], r[0][1], r[0][2])); }
-template<typename TT> inline auto mkview(TT& A, const std::vector<Tri>& r, std::integral_constant<size_t,2>)
-    -> decltype(A(seq(0,1,1), seq(0,1,1))) { return A(seq(r[0][0], r[0][1], r[0][2]), seq(r[1][0], r[1][1], r[1][2])); }
-template<typename TT> inline auto mkview(TT& A, const std::vector<Tri>& r, std::integral_constant<size_t,3>)
-    -> decltype(A(seq(0,1,1), seq(0,1,1), seq(0,1,1))) {
-    return A(seq(r[0][0], r[0][1], r[0][2]), seq(r[1][0], r[1][1], r[1][2]), seq(r[2][0], r[2][1], r[2][2])); }
-template<typename TT> inline auto mkview(TT& A, const std::vector<Tri>& r, std::integral_constant<size_t,4>)
-    -> decltype(A(seq(0,1,1), seq(0,1,1), seq(0,1,1), seq(0,1,1))) {
-    return A(seq(r[0][0], r[0][1], r[0][2]), seq(r[1][0], r[1][1], r[1][2]), seq(r[2][0], r[2][1], r[2][2]), seq(r[3][0], r[3][1], r[3][2])); }
-
-template<typename L, typename R> inline void apply_op(int op, L&& lhs, const R& rhs) {
-    switch (op) { case 0: lhs = rhs; break; case 1: lhs += rhs; break; case 2: lhs -= rhs; break; default: lhs *= rhs; break; }
 }
 
 // the evaluation-requiring right-hand side: a matrix product written as an expression
@@ -124,27 +54,6 @@ template<typename T, size_t R, size_t... E> struct EvalRhs {        // no linear
     Poly at(long) const { return Poly{}; }
 };
 
-template<size_t... E> struct prod_of { static constexpr size_t value = 1; };
-template<size_t E0, size_t... E> struct prod_of<E0,E...> { static constexpr size_t value = E0 * prod_of<E...>::value; };
-
-// how the destination view is made: from the run-time triples of the script (dynamic view classes) ...
-struct DynMaker {
-    static const char* cls() { return "dyn"; }
-    template<typename TT, size_t R> static auto make(TT& A, const std::vector<Tri>& r, std::integral_constant<size_t,R> rk)
-        -> decltype(mkview(A, r, rk)) { return mkview(A, r, rk); }
-};
-// ... or from compile-time fseq<F,L,S> (fixed view classes; the script must carry the same triples)
-template<typename... FS> struct FixMaker {
-    static const char* cls() { return "fix"; }
-    template<typename TT, size_t R> static auto make(TT& A, const std::vector<Tri>& r, std::integral_constant<size_t,R>)
-        -> decltype(A(FS{}...)) {
-        const int want[] = {FS::_first..., FS::_last..., FS::_step...};
-        for (size_t k = 0; k < R; ++k)
-            if (r[k][0] != want[k] || r[k][1] != want[R + k] || r[k][2] != want[2 * R + k]) { std::printf(" | ORACLE=FAIL script-does-not-match-fseq\n"); std::fflush(stdout); _exit(0); }
-        return A(FS{}...);
-    }
-};
-
 template<typename T, typename RD, typename Maker, size_t... D> struct Runner;
 template<typename T, size_t... E, typename Maker, size_t... D>
 struct Runner<T, RDims<E...>, Maker, D...> {
@@ -156,7 +65,7 @@ struct Runner<T, RDims<E...>, Maker, D...> {
         for (size_t k = 0; k < dims.size(); ++k) ds += (k ? "x" : "") + std::to_string(dims[k]);
         for (size_t k = 0; k < rdims.size(); ++k) rs += (k ? "x" : "") + std::to_string(rdims[k]);
         vf::guarded([&]{
-            std::printf("vw cls=%s cfg=%s sz=%d vea=%d dims=%s rd=%s W=%s", Maker::cls(), CFGNAME, (int)sizeof(T), VW_VEA, ds.c_str(), rs.c_str(), script);
+            std::printf("vw cls=%s cfg=%s sz=%d vea=%d%s dims=%s rd=%s W=%s", Maker::cls(), CFGNAME, (int)sizeof(T), VW_VEA, VW_NAL ? " nal=1" : "", ds.c_str(), rs.c_str(), script);
             std::fflush(stdout);
             arena.reset(); pool.reset();
             TA* A = arena_tensor<TA>(0); TA* B = arena_tensor<TA>(1); TA* C = arena_tensor<TA>(2);
@@ -179,12 +88,12 @@ struct Runner<T, RDims<E...>, Maker, D...> {
                 T c(w.c);
                 if (!w.keep || !held) { held.reset(new VT(Maker::make(*A, w.dst, rk))); flag = false; }
                 if (w.na) flag = true;
-                const bool guarded = flag && w.rk != 's';
+                const bool guarded = flag && w.rk != 's' && !VW_NAL;   // FASTOR_NO_ALIAS=1 compiles the guard out
                 if (guarded) flag = false;
                 vf::trace.clear(); vf::trace.on = true;
                 {
                     VT& v = *held;
-                    if (w.na) v.noalias();
+                    if (w.na) Maker::noalias(v);
                     switch (w.rk) {
                     case 's': apply_op(w.op, v, c); break;
                     case 'v': apply_op(w.op, v, mkview(*B, w.src, rk)); break;
@@ -205,7 +114,7 @@ struct Runner<T, RDims<E...>, Maker, D...> {
                 wseq = hstep(wseq, s.wseq); nw += s.nw; oob += s.oob;
                 rd0 = hstep(rd0, set_digest(s.reads[0]));
                 // reference: snapshot semantics
-                RefSel sel(w.dst, dims), s1(w.src, dims), s2(w.src2, dims);
+                RefSel sel = Maker::is_diag() ? RefSel::diagonal(dims[0]) : RefSel(w.dst, dims); RefSel s1(w.src, dims), s2(w.src2, dims);
                 std::vector<Poly> old = ref;
                 for (long jf = 0; jf < sel.total; ++jf) {
                     Poly r;
@@ -250,8 +159,8 @@ struct Runner<T, RDims<E...>, Maker, D...> {
 } // namespace vw
 
 // VW(T, (E...), (D...), "script")
-#define VW_UNPACK(...) __VA_ARGS__
 #define VW(T, RD, DD, SCRIPT) vw::Runner<T, vw::RDims<VW_UNPACK RD>, vw::DynMaker, VW_UNPACK DD>::go(SCRIPT)
 // VWF(T, (E...), (D...), (fseq<..>, fseq<..>), "script")
+#define VWD(T, RD, DD, SCRIPT) vw::Runner<T, vw::RDims<VW_UNPACK RD>, vw::DiagMaker, VW_UNPACK DD>::go(SCRIPT)
 #define VWF(T, RD, DD, FS, SCRIPT) vw::Runner<T, vw::RDims<VW_UNPACK RD>, vw::FixMaker<VW_UNPACK FS>, VW_UNPACK DD>::go(SCRIPT)
-using Fastor::fseq;
+
